@@ -38,3 +38,6 @@ lookup() { git -C /repo log --format='%h %s' c4ba82b..HEAD | grep -F "$1" | cut 
 pair="$(lookup "field types the parser cannot fill")+$(lookup "slice of encoding.TextUnmarshaler structs")"
 echo "== revert $pair (both capture-target repairs): C06"; tools/mutcheck.sh -R:$pair C06 2>&1 | grep -E "exit=|cannot" | cut -c1-200
 run "Unquote panics on a token shorter" C06
+run "slice or pointer type that is its own element type" C19
+run "Union() with a nil member" C19
+run "productions the root does not reach" C08
